@@ -34,12 +34,17 @@ LEVEL_TEXT = ("Props/C11.lean (float syntax model, every feature set): complete_
               "(complete_iff_partial_syntactic). partial_prefix_contiguous: partial s = ok (v,n) => complete (s.take n) = ok v for "
               "every build without a digit-separator byte (non-format builds and all separator-free formats; prefix, suffix, all "
               "flags allowed), number results unconditionally, special results under SpecialHeadsOK; partial_prefix_model at the API "
-              "level. Both full statements are FALSE (not_complete_iff_partial_full, not_partial_prefix_full) with decided witnesses: "
+              "level. partial_prefix_number / partial_prefix_model_number: number results also when a separator byte exists but "
+              "integer, fraction and exponent have no separator flag (NumContig, e.g. special_digit_separator alone: non-contiguous "
+              "buffer, digit counts by increment_count - exact since the repaired 8-digit-block counting, /repo 7e8a135 + 12a2453; "
+              "regression_A/B_sep_format_8digit_block are the former failing inputs '12345678', '12345678x' of a fraction-only "
+              "separator format, now agreeing with content). Both full statements are FALSE (not_complete_iff_partial_full, not_partial_prefix_full) with decided witnesses: "
               "digits not required ('NaN' -> (0.0,0), '-inf' -> (-0.0,1), '-+'), radix >= 19 where letters of inf/NaN are digits "
               "('inf' radix 20, 'infinity' radix 30, 'nan^' radix 24), sep_i_hexfloat_prefix '1p1_a'. Props/C11Int.lean (integer "
               "model, complete): int_complete_iff_partial holds with no exclusion; int_partial_prefix holds iff a digit was consumed "
-              "(int_partial_prefix_iff), witness '+a' -> (0,1) vs '+' -> Empty(1). Formats WITH a separator byte: partial_prefix is "
-              "not proved (only the counter-example class is exhibited).")
+              "(int_partial_prefix_iff), witness '+a' -> (0,1) vs '+' -> Empty(1). Formats WITH a separator flag on integer, fraction or "
+              "exponent (and special results of formats with a separator byte): partial_prefix is not proved (only the "
+              "counter-example class is exhibited).")
 LEVEL_NOTE = ("Trusted: Lean kernel; rustc; that the models mirror the Rust control flow (correspondence only). The integer parser with the "
               "`format` feature (prefix/suffix/separators/leading-zero flags) is modelled by Model.ParseIntFormat; Props/C04Format.lean proves "
               "clause 1 for formats without separator/prefix/suffix/leading-zero flag and decides the witnesses I2 (no_integer_leading_zeros '0'), "
